@@ -12,6 +12,10 @@
 //	Rerr  … with a ServiceFault BadNoSubscription (publish() fails, the loop pauses itself)
 //	X     the server drops the connection (publish fails with EOF and Client.monitor
 //	      starts a reconnect round)
+//	Gt/Dl ForgetSubscription of an unknown id with a context deadline / the deadline passes
+//	U     (first) the application's notification channel is unbuffered
+//	Rdata the server answers with a data notification; T the application takes it;
+//	I     the application calls SubscriptionIDs() (must return within a second)
 //
 // After every operation the system runs to quiescence and its abstract state
 // (len(pausech), len(resumech), where the loop stands, who holds subMux, which
@@ -66,10 +70,23 @@ type sys struct {
 	// sawBoth: at some quiescent point a pause and a resume token were queued
 	// together (the select will pick between two ready channels)
 	sawBoth bool
+	// a forget with a context deadline: when it started, whether the deadline has
+	// passed, whether it has returned
+	dlStart    time.Time
+	dlPassed   bool
+	dlReturned bool
+	dlStarted  bool
+	// SubscriptionIDs() calls that did not return within a second
+	idsBlocked int
 }
 
-func newSys(reqTimeout time.Duration, reconnect bool) (*sys, error) {
+const forgetDeadline = 1500 * time.Millisecond
+
+func newSys(reqTimeout time.Duration, reconnect, unbuffered bool) (*sys, error) {
 	y := &sys{notif: make(chan *opcua.PublishNotificationData, 4096), timeout: reqTimeout}
+	if unbuffered {
+		y.notif = make(chan *opcua.PublishNotificationData)
+	}
 	srv, err := xsubs.StartScripted(nil)
 	if err != nil {
 		return nil, err
@@ -203,6 +220,7 @@ func (y *sys) observe() observation {
 	o.fgWait = y.fgStarted - locked
 	o.fgHolding = locked - done
 	o.monPause = merr - mpassed
+	lockedWait := o.loop == "wantLock"
 	if o.pause > 0 && o.resume > 0 {
 		y.sawBoth = true
 	}
@@ -210,6 +228,11 @@ func (y *sys) observe() observation {
 		o.mux, o.nsubs = "free", fmt.Sprint(n)
 	} else {
 		o.mux, o.nsubs = "held", "?"
+	}
+	// past `publish.lock` with the lock free: the response has been handled and the
+	// loop is handing the notification to the application
+	if lockedWait && o.mux == "free" {
+		o.loop = "notifying"
 	}
 	return o
 }
@@ -261,6 +284,54 @@ func (y *sys) apply(op string) bool {
 			y.fgReturned++
 			y.mu.Unlock()
 		}()
+	case "Gt":
+		y.mu.Lock()
+		y.fgStarted++
+		y.dlStarted, y.dlStart = true, time.Now()
+		y.mu.Unlock()
+		go func() {
+			ctx, cancel := context.WithTimeout(context.Background(), forgetDeadline)
+			defer cancel()
+			y.c.ForgetSubscription(ctx, 987655)
+			y.mu.Lock()
+			y.fgReturned++
+			y.dlReturned = true
+			y.mu.Unlock()
+		}()
+	case "Dl":
+		if !y.dlStarted {
+			return false
+		}
+		if d := forgetDeadline + 150*time.Millisecond - time.Since(y.dlStart); d > 0 {
+			time.Sleep(d)
+		}
+		y.dlPassed = true
+	case "Rdata":
+		y.mu.Lock()
+		if len(y.held) == 0 || len(y.subs) == 0 {
+			y.mu.Unlock()
+			return false
+		}
+		hd := y.held[len(y.held)-1]
+		y.held = y.held[:len(y.held)-1]
+		id := y.subs[len(y.subs)-1].SubscriptionID
+		y.mu.Unlock()
+		y.seq++
+		hd.c.Reply(hd.reqID, xsubs.DataResponse(hd.req, id, y.seq, 1, nil, 5, int32(y.seq)))
+	case "T":
+		select {
+		case <-y.notif:
+		case <-time.After(time.Second):
+			return false
+		}
+	case "I":
+		done := make(chan struct{})
+		go func() { y.c.SubscriptionIDs(); close(done) }()
+		select {
+		case <-done:
+		case <-time.After(time.Second):
+			y.idsBlocked++
+		}
 	case "Rok", "Rerr":
 		y.mu.Lock()
 		// BadNoSubscription is only sent when it is true (nothing registered, no
@@ -327,6 +398,9 @@ func (y *sys) probe() (ok bool, why string) {
 			break
 		}
 		y.settle()
+	}
+	if y.idsBlocked > 0 {
+		return false, fmt.Sprintf("%d SubscriptionIDs() calls did not return within 1 s (the publish loop was handing a notification to the application)", y.idsBlocked)
 	}
 	if pendS, pendF := pending(); pendS > 0 || pendF > 0 {
 		return false, fmt.Sprintf("%d Subscribe and %d ForgetSubscription calls have not returned although the server answered every PublishRequest", pendS, pendF)
@@ -402,17 +476,20 @@ type env struct {
 	rnd *h.Rand
 }
 
-const initState = "1,0,free,sel,0,0,0,0,0,0,0"
+const initState = "1,0,free,sel,0,0,0,0,0,0,0,0"
 
 // scenario runs the operations; returns false on an infrastructure problem.
 func (e *env) scenario(ops []string) (infra string, disagree *h.Disagreement, fail *h.OracleFailure, confirmed string, trace string) {
-	reconnect := false
+	reconnect, unbuffered := false, false
 	for _, op := range ops {
 		if op == "X" {
 			reconnect = true
 		}
+		if op == "U" {
+			unbuffered = true
+		}
 	}
-	y, err := newSys(20*time.Second, reconnect)
+	y, err := newSys(20*time.Second, reconnect, unbuffered)
 	if err != nil {
 		return "set-up: " + err.Error(), nil, nil, "", ""
 	}
@@ -438,8 +515,15 @@ func (e *env) scenario(ops []string) (infra string, disagree *h.Disagreement, fa
 		return "", disagree, nil, "", strings.Join(steps, " ")
 	}
 	for _, op := range ops {
+		if op == "U" {
+			continue // scenario option: unbuffered notification channel
+		}
 		if !y.apply(op) {
 			continue // precondition not met (nothing registered / nothing outstanding): skipped
+		}
+		if op == "I" {
+			e.r.Hit("op:I")
+			continue // no effect on the abstract state
 		}
 		e.r.Hit("op:" + op)
 		if !check(op) {
@@ -467,7 +551,9 @@ func (e *env) scenario(ops []string) (infra string, disagree *h.Disagreement, fa
 	switch {
 	case post.loop == "selfPause" && post.pause == pcap && post.fgHolding == 0:
 		sig = sigSelfPause
-	case post.fgHolding == 1 && post.mux == "held" && post.pause == pcap:
+	case post.fgHolding == 1 && post.mux == "held" && post.pause == pcap && !(y.dlPassed && !y.dlReturned):
+		// (a forget whose context deadline has passed must have returned: that one
+		// is not the recorded finding)
 		sig = sigForget
 	case y.sawBoth && post.loop == "paused" && post.pause == 0 && post.resume == 0 && post.mux == "free" && post.nsubs != "0" &&
 		post.subSend+post.subLock+post.fgWait+post.monPause == 0:
@@ -582,7 +668,7 @@ func (e *env) gateScenario() bool {
 // timeoutScenario exercises the "ignored error" branch of publish(): the server
 // never answers, the request times out locally and the loop goes round.
 func (e *env) timeoutScenario() {
-	y, err := newSys(300*time.Millisecond, false)
+	y, err := newSys(300*time.Millisecond, false, false)
 	if err != nil {
 		e.r.InfraError = "timeout scenario set-up: " + err.Error()
 		return
@@ -676,7 +762,7 @@ func main() {
 		}
 		e.run(ops)
 	}
-	for _, b := range []string{"op:S", "op:F", "op:G", "op:Rok", "op:Rerr", "op:X", "op:Rign", "op:gate", "model-verdict:dead", "model-verdict:live", "oracle:progress"} {
+	for _, b := range []string{"op:S", "op:F", "op:G", "op:Rok", "op:Rerr", "op:X", "op:Rign", "op:gate", "op:Gt", "op:Dl", "op:Rdata", "op:T", "op:I", "model-verdict:dead", "model-verdict:live", "oracle:progress"} {
 		if r.Distribution[b] == 0 {
 			r.Unreached = append(r.Unreached, b)
 		}
